@@ -80,6 +80,7 @@ func checkC10(c *Ctx) {
 	c.Rule("C10.R2", "every criterion is applied: the route-yielding return is behind the true edge of the path, host, header, query, remote-IP and method matchers; every field of config.MatchConfig is read; the allowed-methods function applies the same matchers minus methods")
 	c.Rule("C10.R3", "no effect without a route: from the not-resolved edge of the ingress handler no Store call is reachable; it answers 405 (with Allow) only when allowed methods exist, else 404")
 	c.Rule("C10.R4", "boundary on partial matches: a wildcard host suffix match includes the '.' label boundary and a path prefix match the '/' segment boundary")
+	c.Rule("C10.R5", "a compiled route owns its match lists: every list stored into a config.MatchConfig field is fresh storage (nil, make, append onto its own list), never a named matcher's or other shared slice by reference")
 	w := p.wiringTable()
 	fs := w[fieldKey{"ingress.Server", "ResolveRoute"}]
 	gs := w[fieldKey{"ingress.Server", "AllowedMethodsFor"}]
@@ -429,6 +430,7 @@ func checkC10(c *Ctx) {
 
 	// ---- R4 ----
 	checkMatchBoundaries(c, "C10.R4", f)
+	checkMatchListsOwned(c, "C10.R5")
 }
 
 // routeLoopMustPass: like MustPass but relative to the outermost loop containing site.
